@@ -835,6 +835,53 @@ func drawECase(t *rapid.T, excluded map[string]bool) *ECase {
 		return f
 	})
 	c.Faults = rapid.SliceOfN(fg, 1, 3).Draw(t, "faults")
+	// two structured shapes that random mixing rarely reaches
+	switch rapid.SampledFrom([]string{"random", "random", "random", "random", "random", "random", "delwave", "bigjournal"}).Draw(t, "shape") {
+	case "delwave":
+		// data settled over several levels, then a wave of deletes whose compaction meets a
+		// table write/sync failure and is retried
+		c.Opts.WriteBuffer, c.Opts.TableSize, c.Opts.TotalSize, c.Opts.TotalSizeMult = 256, 512, 1024, 2
+		c.Opts.L0Trigger, c.Opts.L0Slowdown, c.Opts.L0Pause = 2, 6, 8
+		c.Opts.DisableLargeBatch = true
+		var ops []dbm.Op
+		rounds := rapid.IntRange(2, 4).Draw(t, "rounds")
+		for r := 0; r < rounds; r++ {
+			for k := 0; k < nk; k++ {
+				ops = append(ops, dbm.Op{T: "put", K: k, V: gen.VSpec{Len: rapid.SampledFrom([]int{120, 200, 260}).Draw(t, "vl"), Fill: 1}})
+			}
+			if r%2 == 1 {
+				ops = append(ops, dbm.Op{T: "compact"})
+			}
+		}
+		c.ArmAt = len(ops)
+		for k := 0; k < nk; k++ {
+			if rapid.IntRange(0, 4).Draw(t, "keep") != 0 {
+				ops = append(ops, dbm.Op{T: "del", K: k})
+			}
+		}
+		ops = append(ops, dbm.Op{T: "compact"}, dbm.Op{T: "get", K: 0}, dbm.Op{T: "get", K: 1})
+		c.HealAt = len(ops)
+		ops = append(ops, dbm.Op{T: "reopen"})
+		c.Ops = ops
+		c.Faults = []vfs.Fault{{Kind: rapid.SampledFrom([]string{vfs.OpSync, vfs.OpWrite}).Draw(t, "dwk"), FType: "table", Nth: rapid.IntRange(1, 6).Draw(t, "dwn"), Count: 1}}
+		return finishECase(t, c)
+	case "bigjournal":
+		// a journal record spanning two 32 KiB blocks is still in the journal at reopen, and
+		// reading the journal fails once
+		c.Opts.WriteBuffer = 65536 * 2
+		var ops []dbm.Op
+		for k := 0; k < 3 && k < nk; k++ {
+			ops = append(ops, dbm.Op{T: "put", K: k, V: gen.VSpec{Len: 20}, Sync: true})
+		}
+		ops = append(ops, dbm.Op{T: "put", K: nk - 1, V: gen.VSpec{Len: rapid.SampledFrom([]int{33000, 40000, 70000}).Draw(t, "bjl"), Fill: 1}, Sync: true})
+		ops = append(ops, dbm.Op{T: "put", K: 0, V: gen.VSpec{Len: 9}, Sync: true})
+		c.ArmAt = len(ops)
+		ops = append(ops, dbm.Op{T: "reopen"}, dbm.Op{T: "get", K: nk - 1}, dbm.Op{T: "reopen"}, dbm.Op{T: "get", K: 0})
+		c.HealAt = 1 << 20
+		c.Ops = ops
+		c.Faults = []vfs.Fault{{Kind: vfs.OpRead, FType: "journal", Nth: rapid.IntRange(1, 5).Draw(t, "bjn"), Count: 1}}
+		return finishECase(t, c)
+	}
 	if excluded["f9-manifest-fault-with-transaction"] {
 		// open finding F9: a manifest write/sync failure during a transaction commit followed by
 		// Discard leaves a manifest record that references removed tables. Workloads with
@@ -857,6 +904,10 @@ func drawECase(t *rapid.T, excluded map[string]bool) *ECase {
 	}
 	c.ArmAt = rapid.IntRange(0, len(c.Ops)/2).Draw(t, "armat")
 	c.HealAt = c.ArmAt + rapid.IntRange(1, len(c.Ops)).Draw(t, "healspan")
+	return finishECase(t, c)
+}
+
+func finishECase(t *rapid.T, c *ECase) *ECase {
 	pa := &dbm.Profile{Prop: "C08", MinOps: 0, MaxOps: 20, DetPercent: 100,
 		W: map[string]int{"put": 30, "del": 8, "batch": 6, "get": 6, "compact": 3, "reopen": 2, "scan": 2}}
 	c.After = dbm.Draw(t, pa).Ops
